@@ -24,6 +24,7 @@ META = {
     "assumptions": ["analysed targets: x86_64; aarch64 (NEON kernel) in the thorough tier"],
     "not_decided": ["the portable-SIMD body kernel (does not compile with the installed nightly)"],
 }
+TECHNIQUE = 'table laws on the full domain (symmetry, zero iff diagonal, maximum), byte-lane table laws of the body kernel, operation-DAG sibling agreement, decision table of compare_with_config'
 
 
 def run(ctx, FS):
